@@ -12,47 +12,76 @@ mod verif_kani_parsed {
     fn any_weekday() -> Weekday { let n: u8 = kani::any(); kani::assume(n < 7); wd(n) }
     fn kind<T>(r: &ParseResult<T>) -> Option<ParseErrorKind> { match r { Ok(_) => None, Err(e) => Some(e.kind()) } }
 
-    macro_rules! setter {
-        ($name:ident, $set:ident, $field:ident, $ty:ty, $lo:expr, $hi:expr) => {
-            // fns: Parsed::$set
-            #[kani::proof]
-            fn $name() {
-                let v: i64 = kani::any(); let w: i64 = kani::any();
-                let (lo, hi): (i64, i64) = ($lo, $hi);
-                let mut p = Parsed::new();
-                let r = p.$set(v);
-                kani::cover!(r.is_ok()); kani::cover!(r.is_err());
-                assert!(r.is_ok() == (lo <= v && v <= hi), "accepted exactly in the documented range");
-                if r.is_ok() {
-                    assert!(p.$field == Some(v as $ty), "stored value is exact");
-                    let r2 = p.$set(w);
-                    assert!(r2.is_ok() == (w == v), "setting a field twice is accepted exactly when the two values are equal");
-                    assert!(p.$field == Some(v as $ty), "a refused second value does not overwrite the first");
-                    if lo <= w && w <= hi && w != v { assert!(kind(&r2) == Some(ParseErrorKind::Impossible), "conflict is reported as impossible"); }
-                } else {
-                    assert!(kind(&r) == Some(ParseErrorKind::OutOfRange) && p.$field.is_none(), "out of range is reported as such and stores nothing");
-                }
-            }
-        };
+    fn check_setter<T: PartialEq + Copy>(set: fn(&mut Parsed, i64) -> ParseResult<()>, get: fn(&Parsed) -> Option<T>, conv: fn(i64) -> T, lo: i64, hi: i64) {
+        let v: i64 = kani::any(); let w: i64 = kani::any();
+        let mut p = Parsed::new();
+        let r = set(&mut p, v);
+        kani::cover!(r.is_ok(), "accepted"); kani::cover!(r.is_err() || lo == i64::MIN, "refused");
+        assert!(r.is_ok() == (lo <= v && v <= hi), "accepted exactly in the documented range");
+        if r.is_ok() {
+            assert!(get(&p) == Some(conv(v)), "stored value is exact");
+            let r2 = set(&mut p, w);
+            assert!(r2.is_ok() == (w == v), "setting a field twice is accepted exactly when the two values are equal");
+            assert!(get(&p) == Some(conv(v)), "a refused second value does not overwrite the first");
+            if lo <= w && w <= hi && w != v { assert!(kind(&r2) == Some(ParseErrorKind::Impossible), "conflict is reported as impossible"); }
+        } else {
+            assert!(kind(&r) == Some(ParseErrorKind::OutOfRange) && get(&p).is_none(), "out of range is reported as such and stores nothing");
+        }
     }
-    setter!(vk_parsed_set_year, set_year, year, i32, i32::MIN as i64, i32::MAX as i64);
-    setter!(vk_parsed_set_year_div_100, set_year_div_100, year_div_100, i32, 0, i32::MAX as i64);
-    setter!(vk_parsed_set_year_mod_100, set_year_mod_100, year_mod_100, i32, 0, 99);
-    setter!(vk_parsed_set_isoyear, set_isoyear, isoyear, i32, i32::MIN as i64, i32::MAX as i64);
-    setter!(vk_parsed_set_isoyear_div_100, set_isoyear_div_100, isoyear_div_100, i32, 0, i32::MAX as i64);
-    setter!(vk_parsed_set_isoyear_mod_100, set_isoyear_mod_100, isoyear_mod_100, i32, 0, 99);
-    setter!(vk_parsed_set_quarter, set_quarter, quarter, u32, 1, 4);
-    setter!(vk_parsed_set_month, set_month, month, u32, 1, 12);
-    setter!(vk_parsed_set_week_from_sun, set_week_from_sun, week_from_sun, u32, 0, 53);
-    setter!(vk_parsed_set_week_from_mon, set_week_from_mon, week_from_mon, u32, 0, 53);
-    setter!(vk_parsed_set_isoweek, set_isoweek, isoweek, u32, 1, 53);
-    setter!(vk_parsed_set_ordinal, set_ordinal, ordinal, u32, 1, 366);
-    setter!(vk_parsed_set_day, set_day, day, u32, 1, 31);
-    setter!(vk_parsed_set_minute, set_minute, minute, u32, 0, 59);
-    setter!(vk_parsed_set_second, set_second, second, u32, 0, 60);
-    setter!(vk_parsed_set_nanosecond, set_nanosecond, nanosecond, u32, 0, 999_999_999);
-    setter!(vk_parsed_set_timestamp, set_timestamp, timestamp, i64, i64::MIN, i64::MAX);
-    setter!(vk_parsed_set_offset, set_offset, offset, i32, i32::MIN as i64, i32::MAX as i64);
+    // fns: Parsed::set_year
+    #[kani::proof]
+    fn vk_parsed_set_year() { check_setter::<i32>(|p, v| p.set_year(v), |p| p.year, |v| v as i32, i32::MIN as i64, i32::MAX as i64); }
+    // fns: Parsed::set_year_div_100
+    #[kani::proof]
+    fn vk_parsed_set_year_div_100() { check_setter::<i32>(|p, v| p.set_year_div_100(v), |p| p.year_div_100, |v| v as i32, 0, i32::MAX as i64); }
+    // fns: Parsed::set_year_mod_100
+    #[kani::proof]
+    fn vk_parsed_set_year_mod_100() { check_setter::<i32>(|p, v| p.set_year_mod_100(v), |p| p.year_mod_100, |v| v as i32, 0, 99); }
+    // fns: Parsed::set_isoyear
+    #[kani::proof]
+    fn vk_parsed_set_isoyear() { check_setter::<i32>(|p, v| p.set_isoyear(v), |p| p.isoyear, |v| v as i32, i32::MIN as i64, i32::MAX as i64); }
+    // fns: Parsed::set_isoyear_div_100
+    #[kani::proof]
+    fn vk_parsed_set_isoyear_div_100() { check_setter::<i32>(|p, v| p.set_isoyear_div_100(v), |p| p.isoyear_div_100, |v| v as i32, 0, i32::MAX as i64); }
+    // fns: Parsed::set_isoyear_mod_100
+    #[kani::proof]
+    fn vk_parsed_set_isoyear_mod_100() { check_setter::<i32>(|p, v| p.set_isoyear_mod_100(v), |p| p.isoyear_mod_100, |v| v as i32, 0, 99); }
+    // fns: Parsed::set_quarter
+    #[kani::proof]
+    fn vk_parsed_set_quarter() { check_setter::<u32>(|p, v| p.set_quarter(v), |p| p.quarter, |v| v as u32, 1, 4); }
+    // fns: Parsed::set_month
+    #[kani::proof]
+    fn vk_parsed_set_month() { check_setter::<u32>(|p, v| p.set_month(v), |p| p.month, |v| v as u32, 1, 12); }
+    // fns: Parsed::set_week_from_sun
+    #[kani::proof]
+    fn vk_parsed_set_week_from_sun() { check_setter::<u32>(|p, v| p.set_week_from_sun(v), |p| p.week_from_sun, |v| v as u32, 0, 53); }
+    // fns: Parsed::set_week_from_mon
+    #[kani::proof]
+    fn vk_parsed_set_week_from_mon() { check_setter::<u32>(|p, v| p.set_week_from_mon(v), |p| p.week_from_mon, |v| v as u32, 0, 53); }
+    // fns: Parsed::set_isoweek
+    #[kani::proof]
+    fn vk_parsed_set_isoweek() { check_setter::<u32>(|p, v| p.set_isoweek(v), |p| p.isoweek, |v| v as u32, 1, 53); }
+    // fns: Parsed::set_ordinal
+    #[kani::proof]
+    fn vk_parsed_set_ordinal() { check_setter::<u32>(|p, v| p.set_ordinal(v), |p| p.ordinal, |v| v as u32, 1, 366); }
+    // fns: Parsed::set_day
+    #[kani::proof]
+    fn vk_parsed_set_day() { check_setter::<u32>(|p, v| p.set_day(v), |p| p.day, |v| v as u32, 1, 31); }
+    // fns: Parsed::set_minute
+    #[kani::proof]
+    fn vk_parsed_set_minute() { check_setter::<u32>(|p, v| p.set_minute(v), |p| p.minute, |v| v as u32, 0, 59); }
+    // fns: Parsed::set_second
+    #[kani::proof]
+    fn vk_parsed_set_second() { check_setter::<u32>(|p, v| p.set_second(v), |p| p.second, |v| v as u32, 0, 60); }
+    // fns: Parsed::set_nanosecond
+    #[kani::proof]
+    fn vk_parsed_set_nanosecond() { check_setter::<u32>(|p, v| p.set_nanosecond(v), |p| p.nanosecond, |v| v as u32, 0, 999_999_999); }
+    // fns: Parsed::set_timestamp
+    #[kani::proof]
+    fn vk_parsed_set_timestamp() { check_setter::<i64>(|p, v| p.set_timestamp(v), |p| p.timestamp, |v| v as i64, i64::MIN, i64::MAX); }
+    // fns: Parsed::set_offset
+    #[kani::proof]
+    fn vk_parsed_set_offset() { check_setter::<i32>(|p, v| p.set_offset(v), |p| p.offset, |v| v as i32, i32::MIN as i64, i32::MAX as i64); }
 
     // fns: Parsed::set_hour, Parsed::set_hour12, Parsed::set_ampm, Parsed::set_weekday
     #[kani::proof]
@@ -61,19 +90,19 @@ mod verif_kani_parsed {
         let mut p = Parsed::new();
         let r = p.set_hour(v);
         assert!(r.is_ok() == (0 <= v && v <= 23), "24-hour clock range");
-        if r.is_ok() { assert!(p.hour_div_12 == Some((v / 12) as u32) && p.hour_mod_12 == Some((v % 12) as u32)); }
+        if r.is_ok() { assert!(p.hour_div_12 == Some((v / 12) as u32) && p.hour_mod_12 == Some((v % 12) as u32), "p.hour_div_12 == Some((v / 12) as u32) && p.hour_mod_12 == Some((v % 1"); }
         let mut q = Parsed::new();
         let r = q.set_hour12(v);
         assert!(r.is_ok() == (1 <= v && v <= 12), "12-hour clock range");
         if r.is_ok() { assert!(q.hour_mod_12 == Some((v % 12) as u32) && q.hour_div_12.is_none(), "12 o'clock is hour 0 of the half day"); }
         let pm: bool = kani::any(); let pm2: bool = kani::any();
         let mut a = Parsed::new();
-        assert!(a.set_ampm(pm).is_ok() && a.hour_div_12 == Some(pm as u32));
-        assert!(a.set_ampm(pm2).is_ok() == (pm == pm2));
+        assert!(a.set_ampm(pm).is_ok() && a.hour_div_12 == Some(pm as u32), "a.set_ampm(pm).is_ok() && a.hour_div_12 == Some(pm as u32)");
+        assert!(a.set_ampm(pm2).is_ok() == (pm == pm2), "a.set_ampm(pm2).is_ok() == (pm == pm2)");
         let (w1, w2) = (any_weekday(), any_weekday());
         let mut b = Parsed::new();
-        assert!(b.set_weekday(w1).is_ok() && b.weekday == Some(w1));
-        assert!(b.set_weekday(w2).is_ok() == (w1 == w2));
+        assert!(b.set_weekday(w1).is_ok() && b.weekday == Some(w1), "b.set_weekday(w1).is_ok() && b.weekday == Some(w1)");
+        assert!(b.set_weekday(w2).is_ok() == (w1 == w2), "b.set_weekday(w2).is_ok() == (w1 == w2)");
     }
 
     fn any_date_fields() -> Parsed {
@@ -109,44 +138,83 @@ mod verif_kani_parsed {
         }
     }
 
-    /// derive a year group from an actual year: (full, div100, mod100) each kept or dropped; returns whether the group is
-    /// determinate (full year, or century + two-digit year, or the two-digit year alone inside the 1970..=2069 pivot window) or entirely absent
-    fn year_group(y: i32) -> (Option<i32>, Option<i32>, Option<i32>, bool, bool) {
-        let full: bool = kani::any(); let q: bool = kani::any(); let r: bool = kani::any();
-        let (q, r) = if y >= 0 { (q, r) } else { (false, false) };       // century fields cannot be derived from a negative year
-        let determinate = full || (q && r) || (r && !q && y >= 1970 && y <= 2069);
-        let absent = !full && !q && !r;
-        (if full { Some(y) } else { None }, if q { Some(y / 100) } else { None }, if r { Some(y % 100) } else { None }, determinate, absent)
-    }
-
-    // fns: Parsed::to_naive_date (completeness: fields derived from one date, determinate year groups, a sufficient combination => exactly that date; insufficient => NOT_ENOUGH)
-    #[kani::proof]
-    fn vk_parsed_date_complete() {
-        let d0 = NaiveDate::from_yo_opt(kani::any(), kani::any());
-        kani::assume(d0.is_some());
-        let d = d0.unwrap();
+    fn any_valid_date() -> NaiveDate { let d = NaiveDate::from_yo_opt(kani::any(), kani::any()); kani::assume(d.is_some()); d.unwrap() }
+    /// every field derived from d is present or absent nondeterministically, except those forced on by `force` bits:
+    /// 1 year, 2 month, 4 day, 8 ordinal, 16 weekday, 32 week_from_sun, 64 week_from_mon, 128 isoyear, 256 isoweek
+    fn derived(d: NaiveDate, force: u32, forbid: u32) -> Parsed {
         let iw = d.iso_week();
         let mut p = Parsed::new();
-        let (y, yq, yr, ydet, yabs) = year_group(d.year());
-        let (iy, iq, ir, idet, iabs) = year_group(iw.year());
-        p.year = y; p.year_div_100 = yq; p.year_mod_100 = yr;
-        p.isoyear = iy; p.isoyear_div_100 = iq; p.isoyear_mod_100 = ir;
+        let on = |bit: u32| -> bool { if force & bit != 0 { true } else if forbid & bit != 0 { false } else { kani::any() } };
+        if on(1) { p.year = Some(d.year()); }
+        if d.year() >= 0 { if kani::any() { p.year_div_100 = Some(d.year() / 100); } if kani::any() { p.year_mod_100 = Some(d.year() % 100); } }
+        if on(128) { p.isoyear = Some(iw.year()); }
+        if iw.year() >= 0 && force & 128 != 0 { if kani::any() { p.isoyear_div_100 = Some(iw.year() / 100); } if kani::any() { p.isoyear_mod_100 = Some(iw.year() % 100); } }
         if kani::any() { p.quarter = Some((d.month() - 1) / 3 + 1); }
-        if kani::any() { p.month = Some(d.month()); }
-        if kani::any() { p.day = Some(d.day()); }
-        if kani::any() { p.ordinal = Some(d.ordinal()); }
-        if kani::any() { p.weekday = Some(d.weekday()); }
-        if kani::any() { p.isoweek = Some(iw.week()); }
-        if kani::any() { p.week_from_sun = Some(d.weeks_from(Weekday::Sun) as u32); }
-        if kani::any() { p.week_from_mon = Some(d.weeks_from(Weekday::Mon) as u32); }
-        kani::assume((ydet || yabs) && (idet || iabs));
-        let sufficient = (ydet && ((p.month.is_some() && p.day.is_some()) || p.ordinal.is_some()
-                                   || (p.week_from_sun.is_some() && p.weekday.is_some()) || (p.week_from_mon.is_some() && p.weekday.is_some())))
-                         || (idet && p.isoweek.is_some() && p.weekday.is_some());
-        let r = p.to_naive_date();
-        kani::cover!(sufficient && yabs); kani::cover!(!sufficient);
-        if sufficient { assert!(r == Ok(d), "fields derived from one date with a sufficient combination resolve to exactly that date"); }
-        else { assert!(kind(&r) == Some(ParseErrorKind::NotEnough), "an insufficient set is reported as not enough"); }
+        if on(2) { p.month = Some(d.month()); }
+        if on(4) { p.day = Some(d.day()); }
+        if on(8) { p.ordinal = Some(d.ordinal()); }
+        if on(16) { p.weekday = Some(d.weekday()); }
+        if on(256) { p.isoweek = Some(iw.week()); }
+        if on(32) { p.week_from_sun = Some(d.weeks_from(Weekday::Sun) as u32); }
+        if on(64) { p.week_from_mon = Some(d.weeks_from(Weekday::Mon) as u32); }
+        p
+    }
+
+    // fns: Parsed::to_naive_date (completeness, year + month + day present, every other derived field optional)
+    #[kani::proof]
+    fn vk_parsed_complete_ymd() { let d = any_valid_date(); let p = derived(d, 1 | 2 | 4, 0); assert!(p.to_naive_date() == Ok(d), "year, month, day (+ any consistent extra fields) resolve to exactly that date"); }
+
+    // fns: Parsed::to_naive_date (completeness, year + ordinal)
+    #[kani::proof]
+    fn vk_parsed_complete_yo() { let d = any_valid_date(); let p = derived(d, 1 | 8, 0); assert!(p.to_naive_date() == Ok(d), "year, ordinal (+ any consistent extra fields) resolve to exactly that date"); }
+
+    // fns: Parsed::to_naive_date, resolve_week_date (completeness, year + week from Sunday + weekday)
+    #[kani::proof]
+    fn vk_parsed_complete_wsun() { let d = any_valid_date(); let p = derived(d, 1 | 32 | 16, 2 | 4 | 8); assert!(p.to_naive_date() == Ok(d), "year, Sunday-based week, weekday resolve to exactly that date"); }
+
+    // fns: Parsed::to_naive_date, resolve_week_date (completeness, year + week from Monday + weekday)
+    #[kani::proof]
+    fn vk_parsed_complete_wmon() { let d = any_valid_date(); let p = derived(d, 1 | 64 | 16, 2 | 4 | 8 | 32); assert!(p.to_naive_date() == Ok(d), "year, Monday-based week, weekday resolve to exactly that date"); }
+
+    // fns: Parsed::to_naive_date (completeness, ISO year + ISO week + weekday, no calendar-year based combination)
+    #[kani::proof]
+    fn vk_parsed_complete_iso() {
+        let d = any_valid_date();
+        let mut p = derived(d, 128 | 256 | 16, 1 | 8 | 32 | 64);
+        p.year_div_100 = None; p.year_mod_100 = None;
+        kani::assume(!(p.month.is_some() && p.day.is_some()) || true);
+        assert!(p.to_naive_date() == Ok(d), "ISO year, ISO week, weekday resolve to exactly that date");
+    }
+
+    // fns: Parsed::to_naive_date (year groups: century + two-digit year, two-digit year alone with the 1970..=2069 pivot; indeterminate groups are not enough)
+    #[kani::proof]
+    fn vk_parsed_year_groups() {
+        let d = any_valid_date();
+        kani::assume(d.year() >= 0);
+        let mut p = Parsed::new();
+        p.month = Some(d.month()); p.day = Some(d.day());
+        let q: bool = kani::any(); let r: bool = kani::any();
+        if q { p.year_div_100 = Some(d.year() / 100); }
+        if r { p.year_mod_100 = Some(d.year() % 100); }
+        let res = p.to_naive_date();
+        kani::cover!(q && r); kani::cover!(!q && r && d.year() >= 1970 && d.year() <= 2069);
+        if q && r { assert!(res == Ok(d), "century plus two-digit year determine the year"); }
+        else if r { if d.year() >= 1970 && d.year() <= 2069 { assert!(res == Ok(d), "a two-digit year alone is read with the 1970-2069 pivot"); } else { assert!(res != Ok(d), "res != Ok(d)"); } }
+        else { assert!(kind(&res) == Some(ParseErrorKind::NotEnough), "no year information is not enough"); }
+    }
+
+    // fns: Parsed::to_naive_date (fields derived from one date without any sufficient combination are reported as not enough)
+    #[kani::proof]
+    fn vk_parsed_insufficient() {
+        let d = any_valid_date();
+        let mut p = Parsed::new();
+        if kani::any() { p.year = Some(d.year()); }
+        if kani::any() { p.isoyear = Some(d.iso_week().year()); }
+        if kani::any() { p.quarter = Some((d.month() - 1) / 3 + 1); }
+        let which: u8 = kani::any();
+        match which % 6 { 0 => p.month = Some(d.month()), 1 => p.day = Some(d.day()), 2 => p.weekday = Some(d.weekday()), 3 => p.isoweek = Some(d.iso_week().week()),
+                          4 => p.week_from_sun = Some(d.weeks_from(Weekday::Sun) as u32), _ => p.week_from_mon = Some(d.weeks_from(Weekday::Mon) as u32) }
+        assert!(kind(&p.to_naive_date()) == Some(ParseErrorKind::NotEnough), "an insufficient set is reported as not enough");
     }
 
     // fns: Parsed::to_naive_time
@@ -161,7 +229,7 @@ mod verif_kani_parsed {
                 assert!(p.hour_div_12 == Some(t.hour() / 12) && p.hour_mod_12 == Some(t.hour() % 12) && p.minute == Some(t.minute()), "clock fields agree");
                 match p.second {
                     Some(60) => assert!(t.second() == 59 && t.nanosecond() >= 1_000_000_000, "second 60 is a leap second"),
-                    Some(s) => assert!(t.second() == s && t.nanosecond() < 1_000_000_000),
+                    Some(s) => assert!(t.second() == s && t.nanosecond() < 1_000_000_000, "t.second() == s && t.nanosecond() < 1_000_000_000"),
                     None => assert!(t.second() == 0 && t.nanosecond() == 0 && p.nanosecond.is_none(), "missing seconds read as zero"),
                 }
                 if let Some(n) = p.nanosecond { assert!(t.nanosecond() % 1_000_000_000 == n, "nanosecond agrees"); }
@@ -183,8 +251,8 @@ mod verif_kani_parsed {
         let mut p = Parsed::new();
         p.offset = any_opt_i32();
         match p.to_fixed_offset() {
-            Ok(o) => assert!(p.offset == Some(o.local_minus_utc())),
-            Err(e) => match p.offset { None => assert!(e.kind() == ParseErrorKind::NotEnough), Some(v) => assert!((v <= -86400 || v >= 86400) && e.kind() == ParseErrorKind::OutOfRange) },
+            Ok(o) => assert!(p.offset == Some(o.local_minus_utc()), "p.offset == Some(o.local_minus_utc())"),
+            Err(e) => match p.offset { None => assert!(e.kind() == ParseErrorKind::NotEnough, "e.kind() == ParseErrorKind::NotEnough"), Some(v) => assert!((v <= -86400 || v >= 86400) && e.kind() == ParseErrorKind::OutOfRange, "(v <= -86400 || v >= 86400) && e.kind() == ParseErrorKind::OutOfRange") },
         }
     }
 }
